@@ -24,6 +24,27 @@ def argv_for(cmd, flags_order=None):
     return argv
 
 
+def db_entry(cmd, root):
+    """One compilation-database entry for a generated command.  cmd["dbdir"]
+    chooses how the entry is spelled: absent/None - directory is the root (paths
+    relative to it); "absent" - no `directory` key at all (the root is the
+    documented default); any other value - that sub-directory of the root, with
+    `file`, -I/-isystem and -include values re-spelled relative to it."""
+    how = cmd.get("dbdir")
+    if how is None:
+        return {"directory": root, "file": cmd["file"], "arguments": argv_for(cmd)}
+    if how == "absent":
+        return {"file": cmd["file"], "arguments": argv_for(cmd)}
+    d = os.path.join(root, how)
+    os.makedirs(d, exist_ok=True)
+
+    def rel(p):
+        return p if os.path.isabs(p) else os.path.relpath(os.path.join(root, p), d)
+
+    c2 = dict(cmd, file=rel(cmd["file"]), dirs=[[k, rel(x)] for k, x in cmd.get("dirs", ())], forced=[rel(f) for f in cmd.get("forced", ())])
+    return {"directory": d if cmd.get("dbdir_abs", True) else how, "file": c2["file"], "arguments": argv_for(c2)}
+
+
 def materialise(case, root, db_dir=None):
     """Write sources, links, db-<platform>.json and analysis.toml. Returns
     dict(texts, layouts, counted, dbs {platform: path}, analysis path)."""
@@ -34,7 +55,7 @@ def materialise(case, root, db_dir=None):
     db_dir = db_dir or root
     dbs = {}
     for pname, cmds in case["platforms"].items():
-        db = [{"directory": root, "file": cmd["file"], "arguments": argv_for(cmd)} for cmd in cmds]
+        db = [db_entry(cmd, root) for cmd in cmds]
         p = os.path.join(db_dir, f"db-{pname}.json")
         with open(p, "w") as f:
             json.dump(db, f, indent=1)
